@@ -99,9 +99,10 @@ CHECKS['C08'] = {
           'examples, and validity theorems for ALL inputs of the constructor models: NOTIFICATION, KEEPALIVE, ROUTE-REFRESH, IPv4 prefix lists, twelve standard '
           'attributes, OPEN with every capability configuration (C08_open_valid), the whole UPDATE assembly (valid iff <= 4096 octets: C08_update_assembly, '
           'C08_update_of_blocks; Update.construct never checks the limit: C08_update_refuted, known finding), MP_REACH/MP_UNREACH for IPv6 unicast, VPNv4/6, '
-          'labeled unicast and IPv4 flow specification (C08_mp_*), communities from API text. The construct-only families (EVPN, SR-TE, IPv6 flowspec, tunnel '
-          'encapsulation, PMSI, add-path UPDATEs) are decided by evaluating the Coq walker on the implementation output over exhaustive/boundary/free-text input spaces.',
-  'note': 'theorems cover the modelled constructors (tied to the code by the correspondence runs of C06/C07/C14/C17 and re-run witnesses here); the rest is the '
+          'labeled unicast and IPv4 flow specification (C08_mp_*), communities from API text, the PMSI tunnel attribute for any integers, either endpoint family and '
+          'every evpn_overlay argument (C08_pmsi_valid, C08_pmsi_in_range_constructs). The construct-only families (EVPN, SR-TE, IPv6 flowspec, tunnel '
+          'encapsulation, add-path UPDATEs) are decided by evaluating the Coq walker on the implementation output over exhaustive/boundary/free-text input spaces.',
+  'note': 'theorems cover the modelled constructors (tied to the code by the correspondence runs of C06/C07/C14/C17, re-run witnesses and the PMSI construct/parse correspondence here); the rest is the '
           'walker run as an oracle (test, not proof); 5 known findings (C08-oversize, C08-flowspec-and-dropped, C08-flowspec6-offset, C08-label0-no-bos, '
           'C08-srte-ipv6-endpoint); model is of the code with fixes 2751f81, 4aa533e, e38c734, 4becf3b, 480662d',
   'technique': 'Coq proof (validity theorems of constructor models against a Coq-specified structural walker) + walker evaluated by vm_compute on real constructor output + model/implementation correspondence',
